@@ -90,13 +90,28 @@ theorem dropTP_map (l : List (Rotation.Frame Entry)) :
       | nil => rw [h2] at ih; simp at ih
       | cons x xs => rw [h2] at ih; simp only [List.map_cons] at ih ⊢; rw [ih]
 
+/-- what `Oplog::open` cuts off: everything behind the entries that carry the current header bit -/
+def truncOps (cur : Bool) (fs : List (Rotation.Frame Entry)) : List SOp :=
+  if (framesBytes fs).length > (framesBytes (takeBit cur fs)).length
+  then [SOp.trunc .oplog (Spec.entriesOffset + (framesBytes (takeBit cur fs)).length)] else []
+
+theorem truncOps_store (cur : Bool) (fs : List (Rotation.Frame Entry)) : ∀ op ∈ truncOps cur fs, op.store = .oplog := by
+  intro op hop
+  unfold truncOps at hop
+  split at hop
+  · simp at hop; subst hop; rfl
+  · cases hop
+
+theorem truncOps_all (b : Bool) (es : List Entry) : truncOps b (es.map (mk b)) = [] := by
+  simp [truncOps, Rotation.takeBit_all]
+
 /-- **`Oplog::open` on the bytes is the reader's rule on the abstraction.** -/
 theorem openLog_abs (s0 s1 : Bytes) (c0 c1 : Option (Bool × Header)) (fs : List (Rotation.Frame Entry))
     (l0 : s0.length = Spec.headerSize) (l1 : s1.length = Spec.headerSize)
     (h0 : SlotIs s0 c0) (h1 : SlotIs s1 c1) (hok : ∀ f ∈ fs, EntryOK f.entry)
     (bits : Bits) (h : Header) (es : List Entry)
     (hopen : (⟨c0, c1, fs⟩ : Rotation.Log Header Entry).open = some (bits, h, es)) :
-    ∃ ost, openLog none (s0 ++ s1 ++ framesBytes fs) = .ok ⟨ost, h, [], es⟩
+    ∃ ost, openLog none (s0 ++ s1 ++ framesBytes fs) = .ok ⟨ost, h, truncOps bits.cur fs, es⟩
       ∧ ost.bits = (bits.b0, bits.b1) ∧ ost.entriesByteLength = (framesBytes (takeBit bits.cur fs)).length := by
   have hs : Spec.headerSize = 4096 := rfl
   have hE : Spec.entriesOffset = 8192 := rfl
@@ -119,7 +134,7 @@ theorem openLog_abs (s0 s1 : Bytes) (c0 c1 : Option (Bool × Header)) (fs : List
   have c2' : ¬ (s0 ++ s1 ++ Rg).length < 2 * Spec.headerSize := by rw [hlen, hs]; omega
   -- the entries part, for a given current bit
   have hentries : ∀ (st : Oplog.State) (hh : Header), es = seen st.currentBit fs → st.entriesByteLength = 0 →
-      ∃ ost, readLog ⟨st, hh, [], []⟩ (s0 ++ s1 ++ Rg) = .ok ⟨ost, hh, [], es⟩
+      ∃ ost, readLog ⟨st, hh, [], []⟩ (s0 ++ s1 ++ Rg) = .ok ⟨ost, hh, truncOps st.currentBit fs, es⟩
         ∧ ost.bits = st.bits ∧ ost.entriesByteLength = (framesBytes (takeBit st.currentBit fs)).length := by
     intro st hh hes hz
     unfold readLog
@@ -130,8 +145,12 @@ theorem openLog_abs (s0 s1 : Bytes) (c0 c1 : Option (Bool × Header)) (fs : List
         rw [hlen, ← hR]; omega
       obtain ⟨n, hn, hnl⟩ := readEntries_frames st.currentBit fs hok (s0 ++ s1 ++ framesBytes fs).length (by rw [hR]; exact hflen)
       rw [← hR, hn]
-      refine ⟨{ st with entriesLength := ((takeBit st.currentBit fs).map fun f => (f.entry, f.partial_)).length, entriesByteLength := n }, ?_, rfl, hnl⟩
-      simp only [dropTP_map, hes]
+      subst hnl
+      refine ⟨{ st with entriesLength := ((takeBit st.currentBit fs).map fun f => (f.entry, f.partial_)).length, entriesByteLength := (framesBytes (takeBit st.currentBit fs)).length }, ?_, rfl, rfl⟩
+      have hcond : ((s0 ++ s1 ++ framesBytes fs).length > Spec.entriesOffset + (framesBytes (takeBit st.currentBit fs)).length)
+          ↔ ((framesBytes fs).length > (framesBytes (takeBit st.currentBit fs)).length) := by
+        rw [hR, hlen, hE, ← hR]; omega
+      simp only [dropTP_map, hes, List.nil_append, truncOps, hcond]
       rfl
     · have hR0 : Rg.length = 0 := by rw [hlen, hE] at hgt; omega
       have hfs : fs = [] := by
@@ -160,7 +179,7 @@ theorem openLog_abs (s0 s1 : Bytes) (c0 c1 : Option (Bool × Header)) (fs : List
       obtain ⟨hbits, rfl, hes⟩ := hopen
       simp only [hv0, hv1, decode_slot hh1 h1.2.1]
       obtain ⟨ost, e1, e2, e3⟩ := hentries ⟨(!b1, b1), 0, 0⟩ hh1 hes.symm rfl
-      exact ⟨ost, e1, by rw [e2, ← hbits], by rw [e3, ← hbits]; rfl⟩
+      exact ⟨ost, by rw [← hbits]; exact e1, by rw [e2, ← hbits], by rw [e3, ← hbits]; rfl⟩
   | some p0 =>
     obtain ⟨b0, hh0⟩ := p0
     obtain ⟨r0, hv0⟩ := slot_validate s0 b0 hh0 h0
@@ -171,7 +190,7 @@ theorem openLog_abs (s0 s1 : Bytes) (c0 c1 : Option (Bool × Header)) (fs : List
       obtain ⟨hbits, rfl, hes⟩ := hopen
       simp only [hv0, hv1, decode_slot hh0 h0.2.1]
       obtain ⟨ost, e1, e2, e3⟩ := hentries ⟨(b0, b0), 0, 0⟩ hh0 hes.symm rfl
-      exact ⟨ost, e1, by rw [e2, ← hbits], by rw [e3, ← hbits]; rfl⟩
+      exact ⟨ost, by rw [← hbits]; exact e1, by rw [e2, ← hbits], by rw [e3, ← hbits]; rfl⟩
     | some p1 =>
       obtain ⟨b1, hh1⟩ := p1
       obtain ⟨r1, hv1⟩ := slot_validate s1 b1 hh1 h1
@@ -184,13 +203,13 @@ theorem openLog_abs (s0 s1 : Bytes) (c0 c1 : Option (Bool × Header)) (fs : List
         rw [← hhd]
         simp only [decode_slot hh0 h0.2.1]
         obtain ⟨ost, e1, e2, e3⟩ := hentries ⟨(b0, b0), 0, 0⟩ hh0 hes.symm rfl
-        exact ⟨ost, e1, by rw [e2, ← hbits], by rw [e3, ← hbits]; rfl⟩
+        exact ⟨ost, by rw [← hbits]; exact e1, by rw [e2, ← hbits], by rw [e3, ← hbits]; rfl⟩
       · have hbe : (b0 == b1) = false := by simpa using hb
         simp only [hbe, Bool.false_eq_true, ite_false] at hhd ⊢
         rw [← hhd]
         simp only [decode_slot hh1 h1.2.1]
         obtain ⟨ost, e1, e2, e3⟩ := hentries ⟨(b0, b1), 0, 0⟩ hh1 hes.symm rfl
-        exact ⟨ost, e1, by rw [e2, ← hbits], by rw [e3, ← hbits]; rfl⟩
+        exact ⟨ost, by rw [← hbits]; exact e1, by rw [e2, ← hbits], by rw [e3, ← hbits]; rfl⟩
 
 /-! ### the invariant on the bytes -/
 
@@ -255,9 +274,9 @@ theorem opinv_open (st : Oplog.State) (bytes : Bytes) (hf : Header) (es : List E
   have hents := inv.ents
   obtain ⟨c0, c1, fs⟩ := l
   obtain ⟨ost, e1, e2, e3⟩ := openLog_abs s0 s1 c0 c1 fs l0 l1 h0 h1 hfr b' hf es hopen
-  refine ⟨ost, e1, by rw [e2, hbits], ?_⟩
-  rw [e3, hebl, hbits]
   simp only at hents
+  refine ⟨ost, by rw [e1, hbits, hents, truncOps_all], by rw [e2, hbits], ?_⟩
+  rw [e3, hebl, hbits]
   rw [hents, Rotation.takeBit_all]
 
 theorem opinv_congr (st st' : Oplog.State) (bytes : Bytes) (hf : Header) (es : List Entry) (h : OpInv st bytes hf es)
@@ -397,6 +416,75 @@ theorem opinv_flush (st : Oplog.State) (f : File) (hf : Header) (es : List Entry
       rw [this]; exact hinv2
     · simp [Oplog.flush, framesBytes]
     · intro e he; cases he
+
+/-- the crash point inside a flush: the header is written to the next slot, the entry region is not yet
+    truncated.  `Oplog::open` returns the **new** header and no entries (the stale frames carry the
+    other header bit). -/
+theorem opinv_flush_mid (st : Oplog.State) (f : File) (hf : Header) (es : List Entry) (h' : Header)
+    (h : OpInv st f.toList hf es) (hok : HeaderOK h') :
+    ∃ ost ops, openLog none (((Oplog.flush st h' false).2.take 1).foldl (fun g op => op.onFile g) f).toList = .ok ⟨ost, h', ops, []⟩
+      ∧ ∀ op ∈ ops, op.store = .oplog := by
+  have hsz := opinv_size st f hf es h
+  obtain ⟨s0, s1, l, hb, l0, l1, h0, h1, inv, hebl, hoks⟩ := h
+  have hS : Spec.headerSize = 4096 := rfl
+  have hE : Spec.entriesOffset = 8192 := rfl
+  obtain ⟨⟨b', hopen, _, _⟩, _⟩ := Rotation.switch_atomic (h' := h') inv
+  have hfr' : ∀ fr ∈ l.entries, EntryOK fr.entry := by
+    intro fr hfr
+    rw [inv.ents] at hfr
+    obtain ⟨e, he, rfl⟩ := List.mem_map.mp hfr
+    exact hoks e he
+  generalize hfr : frame (encHeader h') (Spec.nextSlot st.bits.1 st.bits.2).2 false = fr
+  generalize hbuf : fr ++ List.replicate (Spec.leaderSize + 2 * (encHeader h').length - fr.length) 0 = buf
+  have hbl : buf.length = Spec.leaderSize + 2 * (encHeader h').length := by
+    rw [← hbuf, ← hfr]
+    simp only [List.length_append, List.length_replicate, frame_length, Spec.leaderSize]; omega
+  have hfit : buf.length ≤ 4096 := by rw [hbl]; exact hok.2
+  cases hsec : (Spec.nextSlot st.bits.1 st.bits.2).1 with
+  | true =>
+    have hso := slot_overwrite s1 h' (Spec.nextSlot st.bits.1 st.bits.2).2 l1 hok fr buf hfr hbuf
+    have hfile : (((Oplog.flush st h' false).2.take 1).foldl (fun g op => op.onFile g) f).toList
+        = s0 ++ (buf ++ s1.drop buf.length) ++ framesBytes l.entries := by
+      simp only [Oplog.flush, Bool.false_eq_true, ite_false, Oplog.insertHeader, hsec, ite_true, hfr, hbuf,
+        List.take_succ_cons, List.take_zero, List.foldl_cons, List.foldl_nil, SOp.onFile]
+      rw [File.toList_write f Spec.headerSize buf (by rw [hsz, hE, hS]; omega), hb]
+      have t0 : (s0 ++ s1 ++ framesBytes l.entries).take Spec.headerSize = s0 := by
+        rw [List.append_assoc, List.take_append_of_le_length (by omega)]
+        simp [List.take_of_length_le, l0]
+      have d0 : (s0 ++ s1 ++ framesBytes l.entries).drop (Spec.headerSize + buf.length)
+          = s1.drop buf.length ++ framesBytes l.entries := by
+        rw [List.append_assoc, ← List.drop_drop, List.drop_append_of_le_length (by omega)]
+        simp only [List.drop_of_length_le (Nat.le_of_eq l0), List.nil_append]
+        rw [List.drop_append_of_le_length (by omega)]
+      rw [t0, d0]
+      simp only [List.append_assoc]
+    rw [hfile]
+    have hw : l.writeNext ⟨st.bits.1, st.bits.2⟩ h' = ⟨l.s0, some ((Spec.nextSlot st.bits.1 st.bits.2).2, h'), l.entries⟩ := by
+      simp [Rotation.Log.writeNext, hsec]
+    rw [hw] at hopen
+    obtain ⟨ost, e1, _, _⟩ := openLog_abs s0 (buf ++ s1.drop buf.length) l.s0 (some ((Spec.nextSlot st.bits.1 st.bits.2).2, h'))
+      l.entries l0 hso.1 h0 hso.2 hfr' b' h' [] hopen
+    exact ⟨ost, _, e1, truncOps_store _ _⟩
+  | false =>
+    have hso := slot_overwrite s0 h' (Spec.nextSlot st.bits.1 st.bits.2).2 l0 hok fr buf hfr hbuf
+    have hfile : (((Oplog.flush st h' false).2.take 1).foldl (fun g op => op.onFile g) f).toList
+        = (buf ++ s0.drop buf.length) ++ s1 ++ framesBytes l.entries := by
+      simp only [Oplog.flush, Bool.false_eq_true, ite_false, Oplog.insertHeader, hsec, hfr, hbuf,
+        List.take_succ_cons, List.take_zero, List.foldl_cons, List.foldl_nil, SOp.onFile]
+      rw [File.toList_write f 0 buf (Nat.zero_le _), hb]
+      simp only [List.take_zero, List.nil_append, Nat.zero_add]
+      have d0 : (s0 ++ s1 ++ framesBytes l.entries).drop buf.length
+          = s0.drop buf.length ++ s1 ++ framesBytes l.entries := by
+        rw [List.append_assoc, List.drop_append_of_le_length (by omega), List.append_assoc]
+      rw [d0]
+      simp only [List.append_assoc]
+    rw [hfile]
+    have hw : l.writeNext ⟨st.bits.1, st.bits.2⟩ h' = ⟨some ((Spec.nextSlot st.bits.1 st.bits.2).2, h'), l.s1, l.entries⟩ := by
+      simp [Rotation.Log.writeNext, hsec]
+    rw [hw] at hopen
+    obtain ⟨ost, e1, _, _⟩ := openLog_abs (buf ++ s0.drop buf.length) s1 (some ((Spec.nextSlot st.bits.1 st.bits.2).2, h')) l.s1
+      l.entries hso.1 l1 hso.2 h1 hfr' b' h' [] hopen
+    exact ⟨ost, _, e1, truncOps_store _ _⟩
 
 theorem leVal_zeros (k : Nat) : leVal (List.replicate k (0 : UInt8)) = 0 := by
   induction k with
